@@ -352,11 +352,18 @@ def run(ctx, rep):
     if not apps:
         rep.bad('D1.state', fn, cand_lists[0], 'no candidate besides the fitted Frank is ever appended: Clayton and Gumbel are never offered', construct='candidate families')
     constructed = set()
+    helper_made = False
     for a in apps:
         st = stmt_of(a)
         cv = a.args[0].id if a.args and isinstance(a.args[0], ast.Name) else None
         tr = st._parent
         if not (isinstance(tr, ast.Try) and st in tr.body):
+            # a candidate produced by a project helper (which may hold the try itself) is not followed here
+            defs_cv = [x.value for x in walk_no_nested(fn.node) if isinstance(x, ast.Assign) and any(isinstance(t, ast.Name) and t.id == cv for t in x.targets)] if cv else []
+            if defs_cv and all(isinstance(d, ast.Call) and (prog.resolve(fn.module, d.func) or '') in prog.functions for d in defs_cv):
+                rep.undecided('D1.state', fn, a, f'the appended candidate comes from `{short(defs_cv[0], 50)}`: how it is created and calibrated there is not derived', construct='append in try')
+                helper_made = True
+                continue
             rep.bad('D1.state', fn, a, 'a candidate is appended outside the try that skips refused calibrations', construct='append in try')
             continue
         body = tr.body
@@ -403,6 +410,8 @@ def run(ctx, rep):
         rep.check('D1.state', fn, hs[0] if hs else tr, okh, 'a refused calibration (ValueError) skips the candidate',
                   'the envelope does not skip exactly the refused calibrations (ValueError)', construct='ValueError envelope')
     want_cls = {'copulas.bivariate.clayton.Clayton', 'copulas.bivariate.gumbel.Gumbel'}
+    if helper_made and not want_cls <= constructed:
+        return
     rep.check('D1.state', fn, cand_lists[0], want_cls <= constructed, 'Clayton and Gumbel are both offered as candidates',
               f'the candidate families besides Frank are {sorted(c.split(".")[-1] for c in constructed)}: Clayton and Gumbel must both be offered',
               construct='candidate families')
